@@ -18,6 +18,7 @@ A failing harness is re-run with concrete playback; the values are replayed agai
 plain rustc (cfg verif_replay, shim for kani::any) and the failing assertion is recorded in the replay file.
 """
 import fcntl, hashlib, json, os, re, shutil, subprocess, sys, time
+sys.path.insert(0, os.path.dirname(os.path.abspath(__file__)))
 
 ROOT = os.path.dirname(os.path.dirname(os.path.abspath(__file__)))
 REPO = os.environ.get('VERIF_REPO', '/repo')
@@ -32,9 +33,13 @@ SHIM = r'''
     #[cfg(not(kani))]
     #[allow(dead_code)]
     pub(super) mod kani {
-        //! replay shim: the values Kani's concrete playback printed, consumed in call order
+        //! native back end for the same harness language: kani::any() replays recorded values (VERIF_REPLAY),
+        //! kani::choose(n) under kani::explore() enumerates every combination of choices by re-execution
         use std::cell::RefCell;
-        thread_local! { static VALS: RefCell<Option<Vec<Vec<u8>>>> = const { RefCell::new(None) }; }
+        thread_local! {
+            static VALS: RefCell<Option<Vec<Vec<u8>>>> = const { RefCell::new(None) };
+            static EN: RefCell<(bool, Vec<(usize, usize)>, usize)> = const { RefCell::new((false, Vec::new(), 0)) };
+        }
         fn next(n: usize) -> Vec<u8> {
             VALS.with(|v| {
                 let mut v = v.borrow_mut();
@@ -51,7 +56,7 @@ SHIM = r'''
             })
         }
         pub trait Arb: Sized { fn arb() -> Self; }
-        impl Arb for bool { fn arb() -> Self { next(1)[0] & 1 == 1 } }
+        impl Arb for bool { fn arb() -> Self { if enumerating() { choose(2) == 1 } else { next(1)[0] & 1 == 1 } } }
         impl Arb for u8 { fn arb() -> Self { next(1)[0] } }
         impl Arb for u16 { fn arb() -> Self { let b = next(2); u16::from_le_bytes([b[0], b[1]]) } }
         impl Arb for u32 { fn arb() -> Self { let b = next(4); u32::from_le_bytes([b[0], b[1], b[2], b[3]]) } }
@@ -59,8 +64,69 @@ SHIM = r'''
         impl Arb for i64 { fn arb() -> Self { let b = next(8); let mut a = [0u8; 8]; a.copy_from_slice(&b); i64::from_le_bytes(a) } }
         impl Arb for usize { fn arb() -> Self { let b = next(8); let mut a = [0u8; 8]; a.copy_from_slice(&b); usize::from_le_bytes(a) } }
         pub fn any<T: Arb>() -> T { T::arb() }
-        /// under replay an assumption that does not hold means the values are not a witness
-        pub fn assume(c: bool) { if !c { eprintln!("VERIF-REPLAY: assumption not satisfied by the recorded values"); std::process::exit(3); } }
+        struct Reject;
+        fn enumerating() -> bool { EN.with(|e| e.borrow().0) }
+        /// an assumption that does not hold ends this execution (enumeration) / means the values are no witness (replay)
+        pub fn assume(c: bool) {
+            if !c {
+                if enumerating() { std::panic::panic_any(Reject); }
+                eprintln!("VERIF-REPLAY: assumption not satisfied by the recorded values"); std::process::exit(3);
+            }
+        }
+        /// a value in 0..n; every value is tried
+        pub fn choose(n: usize) -> usize {
+            assert!(n > 0);
+            EN.with(|e| {
+                let mut e = e.borrow_mut();
+                let pos = e.2;
+                if pos < e.1.len() { assert!(e.1[pos].1 == n || e.1[pos].1 == usize::MAX, "harness is not deterministic"); } else { e.1.push((0, n)); }
+                e.2 = pos + 1;
+                e.1[pos].0
+            })
+        }
+        /// run `f` once for every combination of choose() results (depth-first, by re-execution); the first failing
+        /// execution is reported with its choices and fails the test
+        pub fn explore(f: fn()) {
+            let only: Option<Vec<usize>> = std::env::var("VERIF_ENUM_PATH").ok().map(|s| s.split(',').filter(|x| !x.is_empty()).map(|x| x.parse().unwrap()).collect());
+            let prev = std::panic::take_hook();
+            std::panic::set_hook(Box::new(move |info| { if info.payload().downcast_ref::<Reject>().is_none() { prev(info); } }));
+            EN.with(|e| { let mut e = e.borrow_mut(); e.0 = true; e.1.clear(); e.2 = 0;
+                if let Some(p) = &only { for v in p { e.1.push((*v, usize::MAX)); } } });
+            let mut runs: u64 = 0;
+            let mut rejected: u64 = 0;
+            loop {
+                EN.with(|e| e.borrow_mut().2 = 0);
+                let r = std::panic::catch_unwind(f);
+                runs += 1;
+                match r {
+                    Ok(()) => {}
+                    Err(p) => {
+                        if p.downcast_ref::<Reject>().is_some() { rejected += 1; } else {
+                            let ch: Vec<usize> = EN.with(|e| { let e = e.borrow(); e.1[..e.2.min(e.1.len())].iter().map(|c| c.0).collect() });
+                            eprintln!("VERIF-ENUM-FAIL harness={} choices={}", std::thread::current().name().unwrap_or("?"), ch.iter().map(|c| c.to_string()).collect::<Vec<_>>().join(","));
+                            std::panic::resume_unwind(p);
+                        }
+                    }
+                }
+                if only.is_some() { break; }
+                let done = EN.with(|e| {
+                    let mut e = e.borrow_mut();
+                    let used = e.2;
+                    e.1.truncate(used);
+                    while let Some(&(v, b)) = e.1.last() { if v + 1 >= b { e.1.pop(); } else { break; } }
+                    match e.1.last_mut() { Some(c) => { c.0 += 1; false } None => true }
+                });
+                if done { break; }
+            }
+            eprintln!("VERIF-ENUM-DONE harness={} executions={} rejected_by_assume={}", std::thread::current().name().unwrap_or("?"), runs, rejected);
+            assert!(runs > rejected || only.is_some(), "vacuous harness: every execution was rejected by an assumption");
+        }
+    }
+    /// a value in 0..n (symbolic under Kani, enumerated natively)
+    #[allow(dead_code)]
+    fn pick(n: usize) -> usize {
+        #[cfg(kani)] { let k: usize = kani::any(); kani::assume(k < n); k }
+        #[cfg(not(kani))] { kani::choose(n) }
     }
 '''
 
@@ -79,6 +145,9 @@ def parse_harness_file(path):
             info['append'] = rest
         elif k == 'module':
             info['module'] = rest
+        elif k == 'paste':
+            nm, fl, sel = rest.split(None, 2)
+            info.setdefault('pastes', []).append((nm, fl, sel))
         elif k == 'harness':
             hm = re.match(r'(\w+)\s*(.*)$', rest)
             h = {'fn': hm.group(1), 'kind': 'bounded', 'props': [], 'bound': '', 'label': ''}
@@ -150,6 +219,7 @@ def source_key():
 
 
 _KV = None
+LOST = {}
 
 
 def kani_version():
@@ -162,17 +232,32 @@ def kani_version():
     return _KV
 
 
-def prepare_scratch():
-    """mechanical copy of /repo's working tree + appended harness modules; returns scratch repo dir"""
+def prepare_scratch(only_units=None):
+    """mechanical copy of /repo's working tree + appended harness modules (all, or the named units); returns scratch repo dir"""
     dst = os.path.join(SCRATCH, 'repo')
     os.makedirs(dst, exist_ok=True)
     subprocess.run(['rsync', '-a', '--delete', '--exclude', '/target', '--exclude', '/.git', REPO + '/', dst + '/'], check=True)
     for f in all_harness_files():
         info, txt = parse_harness_file(f)
         tgt = os.path.join(dst, info['append'])
-        if not os.path.exists(tgt):
+        if not os.path.exists(tgt) or (only_units is not None and info['name'] not in only_units):
             continue
         body = txt.replace('//@SHIM@', SHIM)
+        # `//@ paste NAME FILE SELECTOR`: consecutive statements of the real code, extracted mechanically (tools/rustlex.py) from the
+        # scratch copy on every run, pasted verbatim where the harness says /*@PASTE NAME@*/
+        lost = None
+        for nm, fl, sel in info.get('pastes', []):
+            try:
+                import rustlex as rl
+                t = open(os.path.join(dst, fl)).read()
+                mk = rl.code_mask(t)
+                a, b = rl.find_item(t, mk, sel)
+                body = body.replace('/*@PASTE %s@*/' % nm, '\n// ---- verbatim from %s:%d-%d ----\n' % (fl, rl.line_of(t, a), rl.line_of(t, b)) + t[a:b] + '\n// ---- end of verbatim text ----\n')
+            except Exception as ex:  # lost anchor: this unit cannot be built on the current tree
+                lost = '%s: lost anchor %s %s (%s)' % (info['name'], fl, sel, ex)
+        if lost:
+            LOST[info['name']] = lost
+            continue
         with open(tgt, 'a') as fh:
             fh.write('\n// ---- appended by /verif/tools/kani_lane.py from %s (scratch copy only) ----\n' % os.path.relpath(f, ROOT))
             fh.write(body)
@@ -208,6 +293,50 @@ def run_kani(dst, hs, playback=False, jobs=8):
         out = ((e.stdout or b'').decode(errors='replace') if isinstance(e.stdout, bytes) else (e.stdout or '')) + '\nTIMEOUT'
         rc = -9
     return rc, out, time.time() - t0, ' '.join(cmd)
+
+
+def run_enum(dst, hs, path=None):
+    """native exhaustive enumeration of the harness's choices (cargo test on the scratch copy, plain rustc)"""
+    env = dict(os.environ)
+    env['CARGO_NET_OFFLINE'] = 'true'
+    env['CARGO_TARGET_DIR'] = RTARGET
+    env['RUSTFLAGS'] = '--cfg verif_replay'
+    env.pop('VERIF_REPLAY', None)
+    env.pop('VERIF_ENUM_PATH', None)
+    if path is not None:
+        env['VERIF_ENUM_PATH'] = ','.join(str(c) for c in path)
+    cmd = ['cargo', 'test', '--offline', '--lib', '--', '--exact'] + [h['full'] for h in hs] + ['--nocapture']
+    t0 = time.time()
+    try:
+        p = subprocess.run(cmd, cwd=dst, env=env, capture_output=True, text=True, timeout=TIMEOUT)
+        out, rc = p.stdout + '\n' + p.stderr, p.returncode
+    except subprocess.TimeoutExpired as e:
+        out, rc = 'TIMEOUT', -9
+    res = {}
+    for h in hs:
+        r = {'status': None, 'failed_checks': [], 'time': None}
+        m = re.search(r'^test %s \.\.\. (ok|FAILED)' % re.escape(h['full']), out, re.M)
+        if m:
+            r['status'] = 'pass' if m.group(1) == 'ok' else 'fail'
+        else:
+            # libtest prints "test X ... " and the verdict later when output is not captured
+            m = re.search(r'^test %s \.\.\. .*?(ok|FAILED)$' % re.escape(h['full']), out, re.M | re.S)
+            if m:
+                r['status'] = 'pass' if m.group(1) == 'ok' else 'fail'
+        d = re.search(r'VERIF-ENUM-DONE harness=%s executions=(\d+) rejected_by_assume=(\d+)' % re.escape(h['full']), out)
+        if d:
+            r['executions'] = int(d.group(1))
+            r['rejected'] = int(d.group(2))
+        f = re.search(r'VERIF-ENUM-FAIL harness=%s choices=([\d,]*)' % re.escape(h['full']), out)
+        if f:
+            r['status'] = 'fail'
+            r['choices'] = [int(x) for x in f.group(1).split(',') if x]
+            pm = re.findall(r"panicked at [^\n]*\n([^\n]*)", out)
+            r['failed_checks'] = pm[:3]
+        if r['status'] == 'pass' and not d:
+            r['status'] = None   # did not run through explore(): not a verdict
+        res[h['full']] = r
+    return rc, out, time.time() - t0, "RUSTFLAGS='--cfg verif_replay' " + ' '.join(cmd), res
 
 
 def parse_results(out, hs):
@@ -312,15 +441,37 @@ def run_harnesses(hs, tier='quick', need_replay=True):
                 have = set(h['full'] for h in todo)
                 todo = todo + [h for h in harnesses_for(None) if h['full'] not in have and h['full'] not in cache
                                and (tier == 'thorough' or h.get('tier', 'quick') == 'quick')]
-                dst = prepare_scratch()
-                try:
-                    rc, out, dt, cmd = run_kani(dst, todo)
-                    res = parse_results(out, todo)
-                    compile_err = ('error: could not compile' in out or re.search(r'^error(\[E\d+\])?:', out, re.M) is not None) and not res
-                    for h in todo:
+                def attempt(group, only_units):
+                    dst = prepare_scratch(only_units)
+                    runnable = [h for h in group if h['unit'] not in LOST and h['kind'] != 'enum']
+                    enumerable = [h for h in group if h['unit'] not in LOST and h['kind'] == 'enum']
+                    if runnable:
+                        rc, out, dt, cmd = run_kani(dst, runnable)
+                    else:
+                        rc, out, dt, cmd = 0, '', 0.0, ''
+                    res = parse_results(out, runnable)
+                    ecmd = ''
+                    if enumerable:
+                        erc, eout, edt, ecmd, eres = run_enum(dst, enumerable)
+                        res.update(eres)
+                        if 'error: could not compile' in eout or re.search(r'^error(\[E\d+\])?:', eout, re.M):
+                            out += '\n' + eout
+                        dt += edt
+                    compile_err = ('error: could not compile' in out or re.search(r'^error(\[E\d+\])?:', out, re.M) is not None) and not any(v.get('status') for v in res.values())
+                    if compile_err and only_units is None and len(set(h['unit'] for h in group)) > 1:
+                        # one harness module does not fit the changed code: it must not take the others down with it
+                        for u in sorted(set(h['unit'] for h in group)):
+                            attempt([h for h in group if h['unit'] == u], [u])
+                        return
+                    for h in group:
                         r = res.get(h['full'])
                         entry = {'harness': h['full'], 'kind': h['kind'], 'bound': h.get('bound', ''), 'label': h.get('label', ''),
-                                 'unit': h['unit'], 'cmd': cmd, 'wall': round(dt, 1), 'cached': False}
+                                 'unit': h['unit'], 'cmd': (ecmd if h['kind'] == 'enum' else cmd), 'wall': round(dt, 1), 'cached': False}
+                        if h['unit'] in LOST:
+                            entry['status'] = 'undecided'
+                            entry['reason'] = LOST[h['unit']]
+                            cache[h['full']] = entry
+                            continue
                         if r is None or r['status'] is None:
                             entry['status'] = 'undecided'
                             errs = [l for l in out.splitlines() if l.startswith('error')][:6]
@@ -330,7 +481,17 @@ def run_harnesses(hs, tier='quick', need_replay=True):
                             entry['status'] = r['status']
                             entry['time'] = r['time']
                             entry['failed_checks'] = r['failed_checks']
-                        if entry['status'] == 'fail' and need_replay:
+                            for kx in ('executions', 'rejected', 'choices'):
+                                if kx in r:
+                                    entry[kx] = r[kx]
+                        if entry['status'] == 'fail' and h['kind'] == 'enum':
+                            # the failing execution again, alone: this IS the real code, compiled by plain rustc
+                            rc3, out3, dt3, cmd3, res3 = run_enum(dst, [h], path=entry.get('choices'))
+                            keep = [l for l in out3.splitlines() if l.startswith('VERIF') or 'panicked' in l or l.startswith('  input') or 'assert' in l or 'test result' in l]
+                            entry['concrete_vals'] = entry.get('choices')
+                            entry['replay'] = {'cmd': "VERIF_ENUM_PATH=%s %s" % (','.join(str(c) for c in entry.get('choices') or []), cmd3),
+                                               'ran': True, 'reproduced': res3.get(h['full'], {}).get('status') == 'fail', 'rc': rc3, 'output': '\n'.join(keep[-14:])}
+                        elif entry['status'] == 'fail' and need_replay:
                             rc2, out2, dt2, cmd2 = run_kani(dst, [h], playback=True)
                             vals = parse_playback(out2)
                             r2 = parse_results(out2, [h]).get(h['full'], {})
@@ -340,6 +501,8 @@ def run_harnesses(hs, tier='quick', need_replay=True):
                             if vals is not None:
                                 entry['replay'] = replay_real(dst, h, vals)
                         cache[h['full']] = entry
+                try:
+                    attempt(todo, None)
                 finally:
                     cleanup_scratch()
                 tmp = cfile + '.tmp%d' % os.getpid()
@@ -369,7 +532,13 @@ def replay_file(rp):
     try:
         dst = prepare_scratch()
         try:
-            r = replay_real(dst, hs[0], k['concrete_vals'])
+            if hs[0]['kind'] == 'enum':
+                rc3, out3, dt3, cmd3, res3 = run_enum(dst, [hs[0]], path=k['concrete_vals'])
+                keep = [l for l in out3.splitlines() if l.startswith('VERIF') or 'panicked' in l or l.startswith('  input') or 'test result' in l]
+                r = {'cmd': 'VERIF_ENUM_PATH=%s %s' % (','.join(str(c) for c in k['concrete_vals']), cmd3), 'ran': 'running 1 test' in out3,
+                     'reproduced': res3.get(hs[0]['full'], {}).get('status') == 'fail', 'output': '\n'.join(keep[-14:])}
+            else:
+                r = replay_real(dst, hs[0], k['concrete_vals'])
         finally:
             cleanup_scratch()
     finally:
